@@ -101,6 +101,7 @@ fn gens(tier: Tier) -> Vec<Gen> {
     vec![
         Gen::exhaustive("enumerated_histories", n_enum(full)),
         Gen::new("random_histories", tier.pick(2, 4_000, 400_000)),
+        Gen::new("worker_pool_bursts", tier.pick(1, 150, 6_000)),
     ]
 }
 
@@ -267,7 +268,7 @@ async fn handle(resolver: Resolver, sid: u64, e: Ending, p: Probe, second_drop: 
     }
 }
 
-async fn server(net: sim::Net, p: Probe, sp: Spawner, endings: Arc<BTreeMap<u64, Ending>>, second_drop: Arc<BTreeMap<u64, Signal>>, poll_variant: bool, own_shutdown: Option<(usize, usize)>) {
+async fn server(net: sim::Net, p: Probe, sp: Spawner, endings: Arc<BTreeMap<u64, Ending>>, second_drop: Arc<BTreeMap<u64, Signal>>, poll_variant: bool, own_shutdown: Option<(usize, usize)>, pool: Option<usize>) {
     let r = p
         .call("s:conn", "build", h3::server::builder().build::<_, Bytes>(SimConn::<Bytes>::new(&net, SERVER)), |r| match r {
             Ok(_) => Out::Ok,
@@ -277,7 +278,18 @@ async fn server(net: sim::Net, p: Probe, sp: Spawner, endings: Arc<BTreeMap<u64,
     let Ok(mut conn) = r else { return };
     let mut accepted = 0usize;
     let mut own_shutdown = own_shutdown;
+    // a bounded worker pool: once `pool` requests are in progress the accept loop is not polled
+    // again before every worker is free, so all their endings fall between two accept() calls
+    let busy: Arc<Mutex<usize>> = Arc::new(Mutex::new(0));
+    let freed = Signal::default();
     loop {
+        if let Some(limit) = pool {
+            if *busy.lock().unwrap() >= limit {
+                while *busy.lock().unwrap() > 0 {
+                    freed.wait().await;
+                }
+            }
+        }
         // the server may begin a graceful shutdown of its own with a grace interval: requests
         // accepted within the interval are handed out like any other
         if let Some((after, n)) = own_shutdown {
@@ -316,7 +328,13 @@ async fn server(net: sim::Net, p: Probe, sp: Spawner, endings: Arc<BTreeMap<u64,
                 let sid = resolver.frame_stream.id().into_inner();
                 let e = endings.get(&sid).copied().unwrap_or(Ending::NormalFinish);
                 let sd = second_drop.get(&sid).cloned().unwrap_or_default();
-                sp.spawn(format!("s:req@{}", sid), handle(resolver, sid, e, p.clone(), sd));
+                *busy.lock().unwrap() += 1;
+                let (busy, freed, p2) = (busy.clone(), freed.clone(), p.clone());
+                sp.spawn(format!("s:req@{}", sid), async move {
+                    handle(resolver, sid, e, p2, sd).await;
+                    *busy.lock().unwrap() -= 1;
+                    freed.fire();
+                });
             }
             _ => break,
         }
@@ -324,14 +342,18 @@ async fn server(net: sim::Net, p: Probe, sp: Spawner, endings: Arc<BTreeMap<u64,
     p.park(conn);
 }
 
-fn check_history(endings: &[Ending], goaway_pos: usize, seed: u64, rep: &mut Report) {
+fn check_history(endings: &[Ending], goaway_pos: usize, pool: Option<usize>, seed: u64, rep: &mut Report) {
     let mut rng = Rng::new(seed);
     rep.evaluations += 1;
     rep.count("histories");
     for e in endings {
         rep.count(&format!("ending[{:?}]", e));
     }
-    let case = json!({"endings": endings.iter().map(|e| format!("{:?}", e)).collect::<Vec<_>>(), "goaway_released_before_request": goaway_pos});
+    let case = json!({"endings": endings.iter().map(|e| format!("{:?}", e)).collect::<Vec<_>>(), "goaway_released_before_request": goaway_pos, "worker_pool": pool});
+    if pool.is_some() {
+        rep.count("histories_with_a_worker_pool(accept not polled while all workers busy)");
+        rep.max("max:requests_of_one_history", endings.len() as u64);
+    }
     let mut cfg = NetCfg::random(&mut rng);
     cfg.backpressure = false;
     // streams may be surfaced by the transport in another order than their ids (the trait allows
@@ -412,8 +434,8 @@ fn check_history(endings: &[Ending], goaway_pos: usize, seed: u64, rep: &mut Rep
     if own_shutdown.is_some() {
         rep.count("histories_with_a_server_side_shutdown");
     }
-    sched.spawn("s:conn", server(net.clone(), probe.clone(), sched.spawner.clone(), emap, sigs.clone(), poll_variant, own_shutdown));
-    let end = sched.run(1_000_000);
+    sched.spawn("s:conn", server(net.clone(), probe.clone(), sched.spawner.clone(), emap, sigs.clone(), poll_variant, own_shutdown, pool));
+    let end = sched.run(if pool.is_some() { 6_000_000 } else { 1_000_000 });
     rep.sig(hash64(&(endings, goaway_pos, sched.sig)));
     rep.sig_in("interleaving_signatures", sched.sig);
     if end == RunEnd::StepCap {
@@ -502,14 +524,25 @@ fn run_case(gen: &str, index: u64, seed: u64, _tier: Tier, rep: &mut Report) {
         "enumerated_histories" => {
             let (endings, pos) = enum_case(index);
             for _ in 0..3 {
-                check_history(&endings, pos, rng.next(), rep);
+                check_history(&endings, pos, None, rng.next(), rep);
             }
         }
         "random_histories" => {
             let k = rng.usize(5);
             let endings: Vec<Ending> = (0..k).map(|_| *rng.pick(&ENDINGS)).collect();
             let pos = rng.usize(k + 1);
-            check_history(&endings, pos, rng.next(), rep);
+            check_history(&endings, pos, None, rng.next(), rep);
+        }
+        "worker_pool_bursts" => {
+            // many more requests than the histories above, all in progress at once and all
+            // ending while accept() is not being polled
+            let span = if rng.chance(1, 3) { 12 } else { 70 };
+            let k = 2 + rng.usize(span);
+            let normal_pct = *rng.pick(&[0u64, 50, 90]);
+            let endings: Vec<Ending> = (0..k).map(|_| if rng.below(100) < normal_pct { Ending::NormalFinish } else { *rng.pick(&ENDINGS) }).collect();
+            let pos = rng.usize(k + 1);
+            let pool = if rng.bool() { k } else { 1 + rng.usize(k) };
+            check_history(&endings, pos, Some(pool), rng.next(), rep);
         }
         _ => {}
     }
